@@ -21,7 +21,11 @@ RULE = ("orbit states from the repo's TLEs and the near-earth generator (also ex
         "intersection quantities (ldotc, lsq, csq, discriminant, distance) and pixel positions, lon/lat/alt of the pixels, "
         "model vs geoloc.py at 1e-9; oracle: every clause of the statement on the implementation, with a watchdog on "
         "get_lonlatalt; explicit states exactly above a pole and 1e-9..1e-3 km off the polar axis, nadir and scan angles of "
-        "1e-9..1e-3 rad, pixel altitude within 10 m; distinct = (state, angles, attitude)")
+        "1e-9..1e-3 rad, pixel altitude within 10 m; layout probe: 1-D lines and 2-D scans with non-constant angles, per-pixel "
+        "times and scalar / constant-array / per-pixel-array attitude, every array argument of ScanGeometry, vectors, "
+        "compute_pixels and get_lonlatalt (scan angles, scan offsets, times, positions, velocities, roll, pitch, yaw, pixels) in "
+        "a random memory layout (C, Fortran, transposed / axis-swapped views, strided / reversed views, windows of padded "
+        "buffers; shape and values unchanged), judged by the same clauses; distinct = (state, angles, attitude)")
 ASSUMPTIONS = ["float residual 1e-9 of the ellipsoid equation, 0.2 deg nadir deflection, 10 m altitude: measured",
                "the view-vector theorems are about one pixel; array shape handling is covered by the correspondence"]
 TRUSTED = ["model PV.Model.Geoloc (viewVector, intersect) and PV.Model.Look (lonLatAltKm)", "spec PV.Spec.Wgs84"]
@@ -179,11 +183,246 @@ def check_pixel_times(ctx, o, descr, fovs, rpy, t, layout, dt_s):
     return bad
 
 
+# ---------------------------------------------------------------------------------------------------------------------------
+# memory layouts: the same shape and values, other strides (the gaps of strided / padded buffers hold NaN / NaT)
+LAYOUTS_1D = ["strided", "reversed", "strided0", "offset"]
+LAYOUTS_ND = ["F", "T", "swap", "strided", "strided0", "reversed", "rev0", "revall", "offset"]
+LAYOUT_ARGS = ["fovs", "offs", "times", "pos", "vel", "roll", "pitch", "yaw", "pixels"]
+
+
+def _filled(shape, dtype):
+    big = np.empty(shape, dtype=dtype)
+    big[...] = np.array("NaT", dtype=dtype) if dtype.kind in "mM" else np.nan
+    return big
+
+
+def relayout(x, name):
+    """x (an ndarray of floats, datetime64 or timedelta64) with the same shape, dtype and values in the memory layout `name`;
+    "C" is a fresh C-ordered copy."""
+    x = np.array(x, order="C", copy=True)
+    if name == "C" or x.ndim == 0:
+        return x
+    if name == "F":
+        return np.asfortranarray(x)
+    if name == "T":
+        return np.ascontiguousarray(x.T).T
+    if name == "swap":
+        if x.ndim < 2:
+            return x
+        return np.ascontiguousarray(x.swapaxes(-1, -2)).swapaxes(-1, -2)
+    if name == "strided":
+        big = _filled(x.shape[:-1] + (2 * x.shape[-1] + 1,), x.dtype)
+        view = big[..., 1::2]
+        view[...] = x
+        return view
+    if name == "strided0":
+        big = _filled((3 * x.shape[0],) + x.shape[1:], x.dtype)
+        view = big[::3]
+        view[...] = x
+        return view
+    if name == "reversed":
+        return np.ascontiguousarray(x[..., ::-1])[..., ::-1]
+    if name == "rev0":
+        return np.ascontiguousarray(x[::-1])[::-1]
+    if name == "revall":
+        sl = (slice(None, None, -1),) * x.ndim
+        return np.ascontiguousarray(x[sl])[sl]
+    if name == "offset":
+        big = _filled(tuple(d + 2 for d in x.shape), x.dtype)
+        sl = tuple(slice(1, d + 1) for d in x.shape)
+        big[sl] = x
+        return big[sl]
+    raise ValueError("unknown layout " + str(name))
+
+
+def apply_layout(x, name):
+    """x in the named layout ("-" and non-arrays: unchanged); the harness itself verifies shape and values are kept"""
+    if name in (None, "-") or not isinstance(x, np.ndarray):
+        return x
+    y = relayout(x, name)
+    if not (y.shape == x.shape and y.dtype == x.dtype and np.array_equal(y, x, equal_nan=(x.dtype.kind == "f"))):
+        raise RuntimeError("relayout changed the array")
+    return y
+
+
+def pick_layout(r, ndim):
+    if ndim == 0:
+        return "-"
+    if r.random() < 0.25:
+        return "C"
+    return r.choice(LAYOUTS_1D if ndim == 1 else LAYOUTS_ND)
+
+
+class _LaidOutOrbit(object):
+    """the orbit object with the position / velocity arrays it returns in a given memory layout (values unchanged)"""
+
+    def __init__(self, orb, lay_pos, lay_vel):
+        self.orb, self.lay_pos, self.lay_vel = orb, lay_pos, lay_vel
+
+    def get_position(self, times, normalize=False):
+        p, v = self.orb.get_position(times, normalize=normalize)
+        return apply_layout(np.asarray(p), self.lay_pos), apply_layout(np.asarray(v), self.lay_vel)
+
+
+def make_layout_scan(ctx):
+    """(fovs, offs, rpy, layouts): a 1-D line or 2-D scan with non-constant angles, per-pixel time offsets, attitude as
+    scalars, constant arrays or per-pixel arrays, and a layout name for every array argument"""
+    r = ctx.rng
+    shape = (r.randrange(2, 5), r.randrange(2, 6)) if r.random() < 0.7 else (r.randrange(2, 9),)
+    n = int(np.prod(shape))
+    angs = [rand_angles(ctx, miss=r.random() < 0.1) for _ in range(n)]
+    fovs = np.array([[a[0] for a in angs], [a[1] for a in angs]]).reshape((2,) + shape)
+    dt_s = r.choice([0.0, 0.05, 0.7, 5.8])
+    line = shape[-1]
+    offs = np.array([j * dt_s + (j // line) * (6.0 if dt_s else 0.0) for j in range(n)]).reshape(shape)
+    mode = r.choice(["scalar", "scalar", "const", "pixel"])
+    if mode == "scalar":
+        rpy = list(angs[0][2])
+    elif mode == "const":
+        rpy = [np.full(shape, x) for x in angs[0][2]]
+    else:
+        rpy = [np.array([a[2][i] for a in angs]).reshape(shape) for i in range(3)]
+    layouts = {"fovs": pick_layout(r, fovs.ndim), "offs": pick_layout(r, offs.ndim), "times": pick_layout(r, offs.ndim),
+               "pos": pick_layout(r, 1 + offs.ndim), "vel": pick_layout(r, 1 + offs.ndim), "pixels": pick_layout(r, 1 + offs.ndim)}
+    for nm, x in zip(("roll", "pitch", "yaw"), rpy):
+        layouts[nm] = pick_layout(r, np.ndim(x))
+    ctx.bump("layout_scan", "%dd/%s-attitude" % (len(shape), mode))
+    return fovs, offs, rpy, layouts
+
+
+def judge_scan(ctx, o, descr, fovs, offs, rpy, layouts, limit=3):
+    """One scan with every array argument in the recorded memory layout, judged by the clauses of the statement: scan times,
+    unit view vectors, NaN exactly on misses, ellipsoid equation, nearer intersection on the pixel's own view vector,
+    satellite above the horizon, every pixel equal to the pixel computed alone (its own time, angles and attitude),
+    lon/lat/alt terminating with |alt| <= 10 m and NaN exactly for the misses.  Returns the number of violations."""
+    from pyorbital import geoloc
+    fovs = np.array(fovs, dtype=float)
+    shape = fovs.shape[1:]
+    n = int(np.prod(shape))
+    offs = np.array(offs, dtype=float).reshape(shape)
+    rpy = [np.array(x, dtype=float).reshape(shape) if np.ndim(x) else float(x) for x in rpy]
+    layouts = dict(layouts)
+    t = dt.datetime.fromisoformat(descr["utc"])
+    case = dict(descr, probe="layouts", fovs=fovs.tolist(), offs=offs.tolist(), rpy=[x.tolist() if np.ndim(x) else x for x in rpy],
+                layouts=layouts)
+    bad = [0]
+
+    def viol(kind, j, observed, required, site):
+        bad[0] += 1
+        ctx.violation(kind, dict(case, index=j), observed, required, site=site)
+
+    rpy_l = [apply_layout(x, layouts.get(nm, "C")) for nm, x in zip(("roll", "pitch", "yaw"), rpy)]
+    want = np.datetime64(t) + (offs * 1e9).astype("int64").astype("timedelta64[ns]")
+    fovs_l, offs_l = apply_layout(fovs, layouts.get("fovs", "C")), apply_layout(offs, layouts.get("offs", "C"))
+    times = apply_layout(want, layouts.get("times", "C"))
+    try:
+        sg = geoloc.ScanGeometry(fovs_l, offs_l)
+        tt = np.asarray(sg.times(t))
+        if tt.shape != shape or not np.all(np.abs((tt - want).astype("int64")) <= 1):
+            viol("pixel_times", None, [str(x) for x in tt.ravel()], [str(x) for x in want.ravel()], "ScanGeometry.times")
+        with np.errstate(invalid="ignore"):
+            pix = geoloc.compute_pixels(_LaidOutOrbit(o, layouts.get("pos", "C"), layouts.get("vel", "C")), sg, times, rpy_l)
+        P, V = [np.asarray(x, dtype=float) for x in o.get_position(want, normalize=False)]
+        vecs = sg.vectors(apply_layout(P, layouts.get("pos", "C")), apply_layout(V, layouts.get("vel", "C")), *rpy_l)
+    except Timeout:
+        raise
+    except Exception as e:  # noqa
+        viol("scan_raises", None, "%s: %s" % (type(e).__name__, str(e)[:200]), "pixels and view vectors for every accepted scan",
+             "geoloc.compute_pixels")
+        return bad[0]
+    if np.shape(pix) != (3,) + shape or np.shape(vecs) != (3,) + shape:
+        viol("shape_2d", None, [list(np.shape(pix)), list(np.shape(vecs))], "pixels and view vectors of shape %r" % ((3,) + shape,),
+             "geoloc.compute_pixels")
+        return bad[0]
+    pixf = np.array(pix, dtype=float).reshape(3, -1)
+    vecf = np.array(vecs, dtype=float).reshape(3, -1)
+    Pf = P.reshape(3, -1)
+    fovf = fovs.reshape(2, -1)
+    wantf = want.reshape(-1)
+    s = np.array([1 / A_E, 1 / A_E, 1 / B_E])
+    for j in range(n):
+        if bad[0] >= limit:
+            break
+        ctx.count("eval_oracle_layouts")
+        p, vec, px = Pf[:, j], vecf[:, j], pixf[:, j]
+        if not abs(np.linalg.norm(vec) - 1.0) <= 1e-12:
+            viol("view_not_unit", j, float(np.linalg.norm(vec)), "1", "ScanGeometry.vectors")
+        # every pixel is the pixel computed alone, at its own time, with its own angles and attitude (tolerance: see
+        # check_pixel_times)
+        rpy_j = [float(x.reshape(-1)[j]) if np.ndim(x) else x for x in rpy]
+        sg1 = geoloc.ScanGeometry(np.array(fovf[:, j:j + 1]), np.zeros(1))
+        with np.errstate(invalid="ignore"):
+            one = np.asarray(geoloc.compute_pixels(o, sg1, np.array(wantf[j:j + 1]), rpy_j)).reshape(3)
+        tol_km = 1e-6
+        if not (np.any(np.isnan(one)) or np.any(np.isnan(px))):
+            ray = one - p
+            rng_km = float(np.linalg.norm(ray))
+            nrm = one * s * s
+            nrm = nrm / np.linalg.norm(nrm)
+            cos_inc = abs(float(ray @ nrm)) / rng_km if rng_km > 0 else 1.0
+            tol_km += 6e-7 * rng_km / max(cos_inc, 0.02)
+        ps, vs = p * s, vec * s
+        qa, qb, qc = float(vs @ vs), 2 * float(ps @ vs), float(ps @ ps) - 1
+        disc = qb * qb - 4 * qa * qc
+        grazing = abs(disc) < 1e-9     # either outcome within rounding, for the batch and for the pixel alone
+        if not grazing and not np.allclose(px, one, rtol=0, atol=tol_km, equal_nan=True):
+            viol("pixel_not_at_its_time", j, px.tolist(), "the pixel computed alone at its own time: %r" % one.tolist(), "geoloc.compute_pixels")
+        if disc < -1e-9:
+            if not np.all(np.isnan(px)):
+                viol("miss_not_nan", j, px.tolist(), "NaN (ray misses the ellipsoid)", "geoloc.compute_pixels")
+            continue
+        if disc < 1e-9:
+            continue
+        if np.any(np.isnan(px)):
+            viol("hit_is_nan", j, px.tolist(), "a point on the ellipsoid", "geoloc.compute_pixels")
+            continue
+        eq = px[0] ** 2 / A_E ** 2 + px[1] ** 2 / A_E ** 2 + px[2] ** 2 / B_E ** 2
+        if abs(eq - 1) > 1e-9:
+            viol("off_ellipsoid", j, eq, "1 within 1e-9", "geoloc.compute_pixels")
+        ref = p + (-qb - math.sqrt(disc)) / (2 * qa) * vec
+        if np.linalg.norm(px - ref) > 1e-6:
+            viol("not_near_intersection", j, px.tolist(), ref.tolist(), "geoloc.compute_pixels")
+        nrm = px * s * s
+        if float(nrm @ (p - px)) <= 0:
+            viol("satellite_below_horizon", j, float(nrm @ (p - px)), "> 0", "geoloc.compute_pixels")
+    # lon/lat/alt of the pixels (pixel array and times in their layouts); a hang already found is not waited for again
+    if any(v_["kind"] == "lonlatalt_hangs" for v_ in ctx.violations):
+        return bad[0]
+    pix_l = apply_layout(np.array(pix, dtype=float), layouts.get("pixels", "C"))
+    keep = np.array(pix_l, copy=True)
+    try:
+        with np.errstate(invalid="ignore"):
+            lla = with_watchdog(20, lambda: geoloc.get_lonlatalt(pix_l, times))
+    except Timeout:
+        viol("lonlatalt_hangs", None, "no result within 20 s", "terminates", "geoloc.get_lonlatalt")
+        return bad[0]
+    if not np.array_equal(pix_l, keep, equal_nan=True):
+        viol("pixels_modified_by_conversion", None, np.asarray(pix_l).reshape(3, -1)[:, 0].tolist(),
+             "the pixel array is left as compute_pixels returned it: %r" % keep.reshape(3, -1)[:, 0].tolist(), "geoloc.get_lonlatalt")
+    lla = [np.asarray(x, dtype=float) for x in lla]
+    if any(x.shape != shape for x in lla):
+        viol("shape_2d", None, [list(x.shape) for x in lla], "longitudes, latitudes, altitudes of shape %r" % (shape,), "geoloc.get_lonlatalt")
+        return bad[0]
+    llaf = [x.reshape(-1) for x in lla]
+    for j in range(n):
+        if bad[0] >= limit:
+            break
+        ctx.count("eval_oracle_lla")
+        miss = bool(np.isnan(pixf[0, j]))
+        got = [float(llaf[i][j]) for i in range(3)]
+        if any(miss != math.isnan(x) for x in got):
+            viol("lla_nan_mismatch", j, got, "NaN exactly for missed pixels", "geoloc.get_lonlatalt")
+        elif not miss and abs(got[2]) > 0.010:
+            viol("pixel_altitude", j, got[2], "|alt| <= 10 m", "geoloc.get_lonlatalt")
+    return bad[0]
+
+
 def oracle(ctx):
     from pyorbital import geoloc
     n = ctx.size(40, 300)
     per = ctx.size(12, 60)
     worst_eq = 0.0
+    n_state = 0
     for (p, v, t, descr, o) in states(ctx, n, per):
         shape2d = ctx.rng.random() < 0.4
         k = ctx.rng.randrange(2, 7)
@@ -209,6 +448,13 @@ def oracle(ctx):
         # one computed for that pixel alone, at its own time
         if k % 2 == 0:
             check_pixel_times(ctx, o, descr, fovs, rpy, t, ctx.rng.choice(["1d", "2d"]), ctx.rng.choice([0.05, 0.7, 5.8]))
+        # every array argument in a random memory layout (shape and values unchanged), judged by the same clauses
+        n_state += 1
+        if n_state % 2 == 0:
+            lf, lo, lr, ll = make_layout_scan(ctx)
+            for nm in LAYOUT_ARGS:
+                ctx.bump("layouts", "%s:%s" % (nm, ll[nm]))
+            judge_scan(ctx, o, descr, lf, lo, lr, ll)
         nadir_ref = -p / np.linalg.norm(p)
         for j in range(k):
             ctx.count("eval_oracle")
@@ -397,6 +643,13 @@ def replay(ctx, case):
         print(inp)
         return 0
     o = orbital.Orbital("x", line1=inp["line1"], line2=inp["line2"])
+    if inp.get("probe") == "layouts":
+        descr = {"line1": inp["line1"], "line2": inp["line2"], "utc": inp["utc"]}
+        bad = judge_scan(ctx, o, descr, inp["fovs"], inp["offs"], inp["rpy"], inp["layouts"])
+        for v_ in ctx.violations[:3]:
+            print(v_["kind"], "index", v_["case"].get("index"), "observed", v_["observed"], "required", v_["required"])
+        print("layout case", inp["layouts"], ":", "violated" if bad else "holds")
+        return 1 if bad else 0
     t = dt.datetime.fromisoformat(inp["utc"])
     p, v = [np.array(x, dtype=float) for x in o.get_position(t, normalize=False)]
     rpy = tuple(inp.get("rpy", (0.0, 0.0, 0.0)))
